@@ -87,7 +87,13 @@ func init() {
 			e.ext["blocked-label"] = argStr(e, a[0])
 			return nil
 		},
-		"vpYield":       func(e *Exec, _ *frame, _ *ssa.Function, a []Value) Value { e.yield(); return nil },
+		"vpYield": func(e *Exec, _ *frame, _ *ssa.Function, a []Value) Value { e.yield(); return nil },
+		// vpPreempt(k): from here on every schedule with at most k preemptions at synchronisation
+		// operations is explored (0 switches it off: back to the canonical schedule)
+		"vpPreempt": func(e *Exec, _ *frame, _ *ssa.Function, a []Value) Value {
+			e.preemptBudget = int(e.concreteInt(a[0], "vpPreempt budget"))
+			return nil
+		},
 		"vpIsOpaqueStr": func(e *Exec, _ *frame, _ *ssa.Function, a []Value) Value { return e.c.Bool(a[0].(Str).OpaqueID != 0) },
 		"vpClock": func(e *Exec, _ *frame, _ *ssa.Function, a []Value) Value {
 			// the k-th value the clock stub returned under that name
